@@ -556,7 +556,8 @@ func (d *Decoder) decodeSymbolTo(v reflect.Value) error {
 			}
 			return d.attachAnnotations(v)
 		}
-		return d.decodeToStructWithAnnotation(v, symbolType.Kind())
+		// (The value field of an annotation wrapper may be a SymbolToken or a string.)
+		return d.decodeToStructWithAnnotation(v, symbolType.Kind(), reflect.String)
 
 	case reflect.Interface:
 		if v.NumMethod() == 0 {
